@@ -443,7 +443,7 @@ pub fn check_net(net: &Net) -> CaseOut {
             crate::regions::MismatchKind::Defined(_, _) => "undefined_inside_precondition",
             crate::regions::MismatchKind::Value { .. } => "value",
             crate::regions::MismatchKind::OutDim(..) => "outdim",
-            crate::regions::MismatchKind::ImplError(_) => "routing_error",
+            crate::regions::MismatchKind::ImplError(_) | crate::regions::MismatchKind::RefError(_) => "routing_error",
         };
         out.violate(
             Violation::new(format!("tree != network: {}", mismatch_summary(m)), r)
